@@ -125,6 +125,7 @@ def gen_case(rng, op, small=False):
         # start with a digit: the text form of such a rule needs the escape prefix on its way through the parser
         names = rng.sample(["class", "pass", "as", "else", "return", "1abc", "2_c", "break"], min(2, len(genes)))
         deco["rename"] = dict(zip(rng.sample(genes, len(names)), names))
+        deco["copied_before_rename"] = rng.random() < 0.5      # an earlier copy must not influence a later one
     case = {"net": net, "deco": deco, "solver": rng.choice(["glpk", "glpk", "glpk_exact"]),
             "ctx": rng.random() < 0.3, "op": op}
     if op == "rcopy":
@@ -184,6 +185,11 @@ def build(case):
         m.add_cons_vars([v, c])
     if deco.get("rename"):
         from cobra.manipulation.modify import rename_genes
+        if deco.get("copied_before_rename"):
+            import pickle
+            pickle.loads(pickle.dumps(m))
+            for r in m.reactions:
+                r.copy()
         rename_genes(m, {k: v for k, v in deco["rename"].items() if k in m.genes})
     return m
 
